@@ -177,6 +177,8 @@ def write_group(decls, pkgdir, fname='k.go'):
     if any(uses_ctx(d) for d in decls):
         imports.insert(0, '"context"')
     s = 'package main\n\nimport (\n\t%s\n)\n\n' % '\n\t'.join(imports)
+    if any(d.get('pkg_ctx') for d in decls):
+        s += 'var ctx = context.Background()\n\n'
     for d in decls:
         s += emit_types(d) + '\n'
         for p in d['providers']:
